@@ -10,7 +10,9 @@ import (
 	"bytes"
 	"fmt"
 	"math/big"
+	"sort"
 	"strings"
+	"sync"
 
 	dkg "github.com/DOSNetwork/core/share/dkg/pedersen"
 	vss "github.com/DOSNetwork/core/share/vss/pedersen"
@@ -31,7 +33,7 @@ func init() {
 		ID: "C06",
 		Rule: "cases: verify <sk> <msg> <sig> with sk in {0,1,r-1,random}, msg in {empty, 1 MiB, random, short} (keccak ≥ r and < r both occur), sig = valid signature or a mutation " +
 			"(one bit flipped in every byte, −S, identity, off-curve, swapped coordinates, signature of another key / another message, x+p and y+p re-encodings, trailing bytes, truncated, S+G, random on-curve point); " +
-			"sign <sk> <msg> (emitted signature and public key are canonical EVM encodings). non-trivial = every verify case with a non-empty signature, every sign case; distinct = distinct case line",
+			"sign <sk> <msg> (emitted signature and public key are canonical EVM encodings); conc <sk> <msg> <sig> <mul|sum> <rounds> <n> (per round a fresh non-normalised key object shared by n goroutines released together: every verdict = the EVM verdict, the key afterwards encodes as an independent copy, inputs unmodified). non-trivial = every verify case with a non-empty signature, every sign case; distinct = distinct case line",
 		Gen:  gen,
 		Exec: exec,
 	})
@@ -282,6 +284,87 @@ func exec(line string) (res h.Result) {
 				}
 			}
 		}
+	case "conc":
+		// conc <sk> <msg> <sig> <keymode> <rounds> <n>: per round a FRESH, not yet normalised key object
+		// (Jacobian result of Mul / Add), n goroutines released together, each bls.Verify with the shared
+		// key object and the shared message / signature slices.
+		sk, msg, sig := h.BigDec(w[1]), msgOf(w[2]), h.UnHex(w[3])
+		keymode, rounds, n := w[4], h.Atoi(w[5]), h.Atoi(w[6])
+		skr := new(big.Int).Mod(sk, bnref.Rn)
+		wantKey := bnref.Enc2(bnref.Mul2(skr, bnref.G2Gen())) // independent copy of the key's encoding
+		pk128 := bnref.Enc2EVM(bnref.Mul2(skr, bnref.G2Gen()))
+		msg0, sig0 := append([]byte{}, msg...), append([]byte{}, sig...)
+		// the EVM verdict, from independently computed encodings
+		evm, parsed := false, false
+		if r1 := refSig(sig); r1 != nil {
+			parsed = true
+			var e1 string
+			evm, e1 = evmPredicate(r1, pk128, msg)
+			if e1 != "" {
+				res.Oracle = "c06-evm-rejects-canonical-encoding: " + e1
+			}
+		}
+		counts := map[string]int{}
+		for r := 0; r < rounds && res.Oracle == ""; r++ {
+			var X kyber.Point
+			switch keymode {
+			case "mul":
+				X = suite.G2().Point().Mul(scalar(sk), nil)
+			default: // "sum": a·G2 + (sk−a)·G2, as PubPoly.Commit()/Eval build keys
+				a := big.NewInt(int64(7 + r))
+				b := new(big.Int).Sub(skr, a)
+				X = suite.G2().Point().Add(suite.G2().Point().Mul(scalar(a), nil), suite.G2().Point().Mul(scalar(b.Mod(b, bnref.Rn)), nil))
+			}
+			verdicts := make([]string, n)
+			start := make(chan struct{})
+			var wg sync.WaitGroup
+			for g := 0; g < n; g++ {
+				wg.Add(1)
+				go func(g int) {
+					defer wg.Done()
+					defer func() {
+						if e := recover(); e != nil {
+							verdicts[g] = "panic"
+						}
+					}()
+					<-start
+					if err := bls.Verify(suite, X, msg, sig); err != nil {
+						verdicts[g] = "reject " + errKind(err)
+					} else {
+						verdicts[g] = "accept"
+					}
+				}(g)
+			}
+			close(start)
+			wg.Wait()
+			for _, v := range verdicts {
+				counts[v]++
+				if (v == "accept") != (parsed && evm) && res.Oracle == "" {
+					res.Oracle = fmt.Sprintf("c06-concurrent-verdict-differs: round %d of %d, %d goroutines sharing one key object: bls.Verify says %q, the EVM predicate says %v", r, rounds, n, v, parsed && evm)
+				}
+			}
+			after, err := X.MarshalBinary()
+			if res.Oracle == "" && (err != nil || !bytes.Equal(after, wantKey)) {
+				res.Oracle = fmt.Sprintf("c06-verify-modified-key: after round %d the shared key encodes to %s, an independent copy to %s", r, h.Hex(after), h.Hex(wantKey))
+			}
+			if res.Oracle == "" && (!bytes.Equal(msg, msg0) || !bytes.Equal(sig, sig0)) {
+				res.Oracle = "c06-verify-modified-inputs: message or signature bytes changed"
+			}
+		}
+		var ks []string
+		for k := range counts {
+			ks = append(ks, k)
+		}
+		sort.Strings(ks)
+		if len(ks) == 1 {
+			res.Impl = fmt.Sprintf("all=%s rounds=%d n=%d", ks[0], rounds, n)
+		} else {
+			res.Impl = "mixed"
+			for _, k := range ks {
+				res.Impl += fmt.Sprintf(" %s×%d", k, counts[k])
+			}
+		}
+		res.Class = fmt.Sprintf("conc-%s-n%d", keymode, n)
 	case "keccak":
 		res.Impl = h.Hex(crypto.Keccak256(msgOf(w[1])))
 	default:
@@ -291,3 +374,21 @@ func exec(line string) (res h.Result) {
 }
 
 func cryptoKeccak(m []byte) []byte { return crypto.Keccak256(m) }
+
+// refSig: the canonical 64 bytes of a signature the library would parse (math/big decision), or nil
+func refSig(sig []byte) []byte {
+	if len(sig) < 64 {
+		return nil
+	}
+	x, y := new(big.Int).SetBytes(sig[:32]), new(big.Int).SetBytes(sig[32:64])
+	if x.Cmp(bnref.P) >= 0 || y.Cmp(bnref.P) >= 0 {
+		return nil
+	}
+	if x.Sign() == 0 && y.Sign() == 0 {
+		return make([]byte, 64)
+	}
+	if !bnref.OnCurve1(x, y) {
+		return nil
+	}
+	return append([]byte{}, sig[:64]...)
+}
